@@ -96,7 +96,14 @@ pub fn worker_solve(task: &Value) -> Value {
     let digest_s = digest(&serde_json::to_string(out.get("schedule").unwrap_or(&Value::Null)).unwrap());
     for p in &props {
         let r = match (p.as_str(), &parsed) {
-            ("C06", _) => json!({"nt": false, "viol": []}),
+            ("C06", _) => {
+                // regions named by the property: coupled vehicles, ties, scarce or absent depot capacity, several one-vehicle rotation cycles
+                let coupled = (0..spec.n_segs).any(|i| spec.required(i) >= 2);
+                let need: i64 = (0..spec.n_segs).map(|i| spec.cover_lb(i)).sum();
+                let scarce = spec.depots_given && spec.depots.iter().map(|d| d.total.unwrap_or(i64::MAX / 4)).sum::<i64>() < need;
+                let singles = parsed.as_ref().ok().map(|o| o.cycles.values().any(|cs| cs.iter().filter(|c| c.len() == 1).count() >= 2)).unwrap_or(false);
+                json!({"nt": coupled || scarce || singles || spec.has_tie(), "viol": []})
+            }
             ("C08", _) | ("C16", _) | ("C15", _) => extra.get("hooks").and_then(|h| h.get(p.as_str())).cloned().unwrap_or(json!({"nt": false, "viol": [["machinery", "no hook data"]]})),
             (_, Err(e)) => {
                 if p == "C03" {
@@ -155,6 +162,37 @@ pub fn worker_load(task: &Value) -> Value {
             "results": {"C17": {"nt": nt, "viol": viol.iter().map(|(c, d)| json!([c, d])).collect::<Vec<_>>()}},
             "digest": format!("nodes={}", size),
             "summary": {"nodes": size},
+        }),
+        Err((site, msg)) => json!({"status": "panic", "site": site, "msg": msg}),
+    }
+}
+
+/// kind = "flow": run MinCostFlowSolver::solve only and compare with the independent optimum (C14)
+pub fn worker_flow(task: &Value) -> Value {
+    let input = match input_of(task) {
+        Ok(i) => i,
+        Err(e) => return json!({"status": "machinery", "msg": e}),
+    };
+    let seed = task.get("seed").and_then(|s| s.as_u64()).unwrap_or(1);
+    let spec = match Spec::from_input(&input) {
+        Ok(s) => s,
+        Err(e) => return json!({"status": "machinery", "msg": format!("spec cannot read the input: {}", e)}),
+    };
+    if !crate::c14::in_scope(&spec) {
+        return json!({"status": "ok", "results": {"C14": {"nt": false, "viol": [], "skipped": "out of scope: depot totals couple the vehicle types"}}, "digest": "out-of-scope", "summary": {"scope": false}});
+    }
+    let res = pool::run_isolated(seed, move || {
+        let a = crate::arena::Arena::from_input_no_inits("c14", "", input);
+        let start = solver::min_cost_flow_solver::MinCostFlowSolver::initialize(a.nw.clone()).solve();
+        let (viol, nt) = crate::c14::check(&a, &start);
+        (viol, nt, crate::canon::tours_key(&start), start.number_of_vehicles(), start.costs())
+    });
+    match res {
+        Ok((viol, nt, key, nv, costs)) => json!({
+            "status": "ok",
+            "results": {"C14": {"nt": nt, "viol": viol.iter().map(|(c, d)| json!([c, d])).collect::<Vec<_>>()}},
+            "digest": digest(&key),
+            "summary": {"vehicles": nv, "costs": costs},
         }),
         Err((site, msg)) => json!({"status": "panic", "site": site, "msg": msg}),
     }
